@@ -210,7 +210,7 @@ func killnow(t *rt.Thread, c *rt.GoCont) (next rt.Cont, err error) {
 		return nil, err
 	}
 	ctx.SetStopLevel(rt.HardStop)
-	return nil, nil
+	return c.Next(), nil
 }
 
 func stopnow(t *rt.Thread, c *rt.GoCont) (next rt.Cont, err error) {
